@@ -69,6 +69,17 @@ Section C02.
     exists r, process cfg pv parent st0 b now = Rejected State (Critical r).
   Proof. exact (single_mutation_rejected_lemma State exec apply_updates rewards sanity root_of_state root_of_receipts root_of_txs has_tx find_meta cfg pv parent st0 b now i). Qed.
 
+  (* 3c. a breach of ANY rule that Process checks before executing transactions (header 1,2,4-12; proposer 20-23; txs root 30;
+         body 31-37) is consensus-critical whether or not the transactions would execute — e.g. an unrecoverable origin,
+         which breaks rule 31 and (with any exec satisfying C01's exec_sane) rule 41 as well, so that 3a and 3b do not apply.
+         Only the clock rule 3 is required.  Not covered: breaches of the loop / root rules 40, 42-47 in a block where ALSO
+         a transaction or the reward hook fails to execute (the code returns the raw runtime error there: reject_class). *)
+  Theorem pre_execution_breach_rejected_critical cfg pv parent st0 b now i :
+    0 < c_interval cfg -> wf_gas parent b -> parent_sane cfg parent ->
+    rule_holds cfg pv parent st0 b now 3 -> pre_exec_rule i = true -> ~ rule_holds cfg pv parent st0 b now i ->
+    exists r, process cfg pv parent st0 b now = Rejected State (Critical r).
+  Proof. exact (pre_execution_breach_rejected_critical_lemma State exec apply_updates rewards sanity root_of_state root_of_receipts root_of_txs has_tx find_meta cfg pv parent st0 b now i). Qed.
+
   (* 4. every rejection is critical, or names the non-critical rule that failed; the model's panic sites (CalcBaseFee's nil
         dereference and division by zero) are unreachable for a child of a sane parent *)
   Theorem reject_class cfg pv parent st0 b now v : parent_sane cfg parent ->
@@ -152,7 +163,9 @@ Proof.
 Qed.
 
 Definition with_hdr h := mkB h [tx1] None.
-(* header family *)
+(* header family.  Note on rules 1 / 2 failing ALONE: slot_index uses truncated subtraction, so for a time at or before the parent's
+   (or less than one interval after it) the slot is index 0 of the eligible sequence: the two mutants below keep rule 21 because the signer
+   22 is that first element; for another signer a non-positive time shift breaks rule 21 as well (then 3a / 3c apply, not 3b) *)
 Example mut_time_equals_parent :       (* rule 1 *)
   exactly ex_cfg ex_pv ex_parent (with_hdr (hdr 1000 10000000 222 21000 52 1 1 9008 1 (32, 777) true None 146 (Some 22) (Some (32, 4242)))) 1005 1.
 Proof. exact_fail. Qed.
@@ -238,8 +251,14 @@ Proof. exact_fail. Qed.
 Example mut_state_root :               (* rule 47 *)
   exactly ex_cfg ex_pv ex_parent (with_hdr (hdr 1010 10000000 222 21000 52 1 1 9009 1 (32, 777) true None 146 (Some 22) (Some (32, 4242)))) 1005 47.
 Proof. exact_fail. Qed.
-(* over-limit gas: the block's transactions use more gas than its limit.  Here two rules fail together (gasUsed <= limit
-   cannot hold when gasUsed = executed gas > limit): covered by theorem 3a, not by 3b *)
+(* over-limit gas: the block's transactions use more gas than its limit (48 x 21000 > 1 000 000 = the parent's limit) while the
+   header's gasUsed is the executed gas: exactly rule 4 fails *)
+Definition small_parent := mkH 5 1000 1000000 0 0 50 0 1 777 0 (0, 0) false None 146 (Some 11) (Some (0, 0)).
+Definition many_txs := map (fun k => mkTx (9001 + N.of_nat k) true false true false 39 4 32 0 0 false 21000 true None) (seq 0 48).
+Example mut_over_limit_gas :           (* rule 4 *)
+  exactly ex_cfg ex_pv small_parent
+    (mkB (hdr 1010 1000000 222 1008000 52 48 1 433183 48 (32, 777) true None 146 (Some 22) (Some (32, 4242))) many_txs None) 1005 4.
+Proof. exact_fail. Qed.
 Example mut_receipts_root_fixed_by_table :
   X_process ex_cfg ex_pv ex_parent (mkB (hdr 1010 10000000 222 21000 52 1 1 9008 77 (32, 777) true None 146 (Some 22) (Some (32, 4242))) [tx1] (Some 1)) 1005
   = Accepted N 9008 [mkRc 21000 false 5].
@@ -294,6 +313,42 @@ Example other_classes :
   X_process ex_cfg ex_pv ex_parent (with_txs ex_header [mkTx 9001 true false true false 39 4 32 0 0 false 20999 true None]) 1005 = Rejected N (Other 53).
 Proof. split; vm_compute; reflexivity. Qed.
 
+(* theorem 3c applied: an origin-unrecoverable transaction that the runtime also refuses (rules 31 AND 41 fail): critical *)
+Example origin_unrecoverable_is_critical :
+  let b := with_txs ex_header [mkTx 9001 false false true false 39 4 32 0 0 false 20999 true None] in
+  ~ X_rule ex_cfg ex_pv ex_parent b 1005 31 /\ ~ X_rule ex_cfg ex_pv ex_parent b 1005 41 /\
+  exists r, X_process ex_cfg ex_pv ex_parent b 1005 = Rejected N (Critical r).
+Proof.
+  cbv zeta. assert (H31 : ~ X_rule ex_cfg ex_pv ex_parent (with_txs ex_header [mkTx 9001 false false true false 39 4 32 0 0 false 20999 true None]) 1005 31).
+  { intros H. inversion H as [|? ? [C _] _]. discriminate C. }
+  split; [exact H31|]. split.
+  - intros H. destruct (H (mkP 22 true 0)) as (stf & rs & C); [exists 22; split; reflexivity | vm_compute in C; discriminate C].
+  - apply (pre_execution_breach_rejected_critical N _ _ _ _ _ _ _ _ _ ex_cfg ex_pv ex_parent 7 _ 1005 31);
+      [reflexivity | split; reflexivity | split; [reflexivity | vm_compute; discriminate] | vm_compute; discriminate | reflexivity | exact H31].
+Qed.
+
+(* theorem 3a applied to a breach of two rules at once (total score = the parent's: rules 5 and 22) *)
+Example two_rule_breach_is_critical :
+  let b := with_hdr (hdr 1010 10000000 222 21000 50 1 1 9008 1 (32, 777) true None 146 (Some 22) (Some (32, 4242))) in
+  ~ X_rule ex_cfg ex_pv ex_parent b 1005 5 /\ ~ X_rule ex_cfg ex_pv ex_parent b 1005 22 /\
+  exists r, X_process ex_cfg ex_pv ex_parent b 1005 = Rejected N (Critical r).
+Proof.
+  cbv zeta. split; [intros H; vm_compute in H; discriminate H|]. split.
+  - intros H. specialize (H (mkP 22 true 0) ltac:(exists 22; split; reflexivity)). vm_compute in H. discriminate H.
+  - apply (rule_breach_rejected_critical N _ _ _ _ _ _ _ _ _ ex_cfg ex_pv ex_parent 7 _ 1005);
+      [reflexivity | split; reflexivity | split; [reflexivity | vm_compute; discriminate] | | vm_compute; discriminate | | ].
+    + intros A. specialize (A 5). vm_compute in A. discriminate A.
+    + apply (rule_b_sound N _ _ _ _ _ _ _ _ _ ex_cfg ex_pv ex_parent 7 _ 1005 41). vm_compute. reflexivity.
+    + apply (rule_b_sound N _ _ _ _ _ _ _ _ _ ex_cfg ex_pv ex_parent 7 _ 1005 46). vm_compute. reflexivity.
+Qed.
+
+(* theorem 4b applied: the valid block of the first Example, accepted as a child of ex_parent, is a sane parent *)
+Example accepted_block_is_sane_parent : parent_sane ex_cfg ex_header.
+Proof.
+  apply (accepted_parent_sane N (fun _ _ st _ => st) ex_has ex_meta ex_cfg ex_parent ex_header 1005);
+    [apply header_accept_iff; [reflexivity | reflexivity | vm_compute; reflexivity] | reflexivity | reflexivity | vm_compute; discriminate].
+Qed.
+
 Print Assumptions gas_limit_rule.
 Print Assumptions header_accept_iff.
 Print Assumptions accept_iff_rules.
@@ -303,6 +358,12 @@ Print Assumptions reject_class.
 Print Assumptions accepted_parent_sane.
 Print Assumptions rejected_leaves_no_trace.
 Print Assumptions single_mutation_applies.
+Print Assumptions pre_execution_breach_rejected_critical.
+Print Assumptions exactly_intro.
+Print Assumptions exactly_critical.
+Print Assumptions origin_unrecoverable_is_critical.
+Print Assumptions two_rule_breach_is_critical.
+Print Assumptions accepted_block_is_sane_parent.
 
 (* ================================================================ composition *)
 (* C02 <-> C09 (Compose/Replay.v).  The chain lookups has_tx / find_meta, abstract above, instantiated with C09's repository
